@@ -73,9 +73,13 @@ def harness(prop, cases=None, native_inputs=None, max_paths=4000, name=None, gro
     return deco
 
 
-def loop_spec(func_key, ordinal, inv=None, modifies=(), types=None, at_head=None, at_end=None, ghost_havoc=None, abstract=False):
+def loop_spec(func_key, ordinal, inv=None, modifies=(), types=None, at_head=None, at_end=None, ghost_havoc=None, abstract=False,
+              at_exit=None):
+    """at_exit(ns): called on the path that leaves the loop normally, in the state the loop was left in (invariant and the
+    negated guard assumed); for range loops ns.exit_index is the value the loop ran up to"""
     sp = LoopSpec(inv, modifies, types, at_head=at_head, at_end=at_end, ghost_havoc=ghost_havoc)
     sp.abstract = abstract
+    sp.at_exit = at_exit
     _LOOP_SPECS[(func_key, ordinal)] = sp
 
 
